@@ -78,3 +78,17 @@ PROPS = {
         assumptions=["Disconnected's table removal and the following Shutdown() call are treated as one step"],
     ),
 }
+
+# Further properties are configured by one fragment each: bin/props.d/<id>.py defines PROP (the dict
+# above), and optionally NOT_YET_REASON / HOOKS (list of hook-commit lines).
+import glob as _glob, os as _os
+for _f in sorted(_glob.glob(_os.path.join(_os.path.dirname(_os.path.abspath(__file__)), 'props.d', '*.py'))):
+    _ns = {}
+    exec(compile(open(_f).read(), _f, 'exec'), _ns)
+    _id = _os.path.basename(_f)[:-3]
+    if 'PROP' in _ns:
+        PROPS[_id] = _ns['PROP']; NOT_YET.pop(_id, None)
+    elif 'NOT_YET_REASON' in _ns:
+        NOT_YET[_id] = _ns['NOT_YET_REASON']
+    for _h in _ns.get('HOOKS', []):
+        if _h not in HOOK_COMMITS: HOOK_COMMITS.append(_h)
